@@ -1,7 +1,9 @@
 package mcap
 
 import (
+	"bytes"
 	"encoding/binary"
+	"errors"
 	"io"
 )
 
@@ -17,11 +19,16 @@ func readPrefixedString(buf []byte, r io.Reader) (string, error) {
 		return "", err
 	}
 	strlen := binary.LittleEndian.Uint32(buf[:4])
-	s := make([]byte, strlen)
-	if _, err := io.ReadFull(r, s); err != nil {
+	// Do not trust the length prefix with an up-front allocation (it can claim
+	// up to 4 GiB): grow the buffer as bytes actually arrive.
+	var s bytes.Buffer
+	if _, err := io.CopyN(&s, r, int64(strlen)); err != nil {
+		if errors.Is(err, io.EOF) {
+			err = io.ErrUnexpectedEOF
+		}
 		return "", err
 	}
-	return string(s), nil
+	return s.String(), nil
 }
 
 func putByte(buf []byte, x byte) (int, error) {
